@@ -310,7 +310,7 @@ Proof.
   - left. destruct (shut b); try done. inversion Hb; subst. apply IE_frame; simpl; auto.
   - left. destruct (bool_eq ok (bool_decide (svc b = Stopped))); [|done]. inversion Hb; subst.
     apply IE_frame; simpl; destruct ok; auto.
-  - left. destruct (svc b); try done. destruct n; [done|]. inversion Hb; subst.
+  - left. destruct (svc b); try done. destruct (wq b); [done|]. destruct n; [done|]. inversion Hb; subst.
     eapply (IE_init _ _ _ (S n)); simpl; done.
   - left. destruct (svc b); try done. destruct (wq b); [|done]. inversion Hb; subst.
     apply IE_frame; simpl; auto.
